@@ -5,7 +5,7 @@ open TPV TPV.Proto TPV.SamplerState
 /-
   requests
     static <nonempty:0|1> <start> <#ops> <op>*      start = `plain` | `static <k>` ; k = `inf` | nat
-        op = `s <dev:nat>` | `m <k>`
+        op = `s <dev:nat>` | `m <k>` | `q <kind:nat>` (read-only question, no reply token)
       reply: one token per sample call: `<id>` (cached set returned) or `<id>@<dev>` (underlying sampler
       invoked with that device); every token is followed by `:<dev>` = device of the returned set
     spec <f0> <k> <#outs> <out>*                    -> `specNext f0 outs k`
@@ -26,6 +26,7 @@ def op : P Op := do
   match t with
   | "s" => do let d ← nat; pure (.sample d)
   | "m" => do let k ← interval; pure (.makeStatic k)
+  | "q" => do let k ← nat; pure (.query k)
   | _ => throw s!"op:{t}"
 
 def showOut (o : Out) : String :=
